@@ -40,6 +40,8 @@ type Step struct {
 	// Via2: the registration call is made on ANOTHER table object (RegisterPropertyCallback is a method of a
 	// table, but the callback belongs to the owner it names, wherever that owner lives).
 	Via2 bool `json:"via2,omitempty"`
+	// N > 1 (reg steps): the same registration is made N times (N distinct callbacks in one slot)
+	N int `json:"n,omitempty"`
 }
 
 type Case struct {
@@ -555,21 +557,29 @@ func CheckCase(c Case) *ev.Violation {
 			if owner == nil {
 				break
 			}
-			w.nextID++
-			r.id = w.nextID
-			var registrar tabular.Table = t
-			if st.Via2 && st.Owner != "table" {
-				// (a table named as owner through another table's method is ambiguous when it is a wrapper)
-				registrar = other
+			reps := st.N
+			if reps < 1 {
+				reps = 1
 			}
-			err := registrar.RegisterPropertyCallback(owner, whens[r.when], targets[r.target], &recorder{r: r, w: w})
-			unsupported := (st.Owner == "column" || st.Owner == "cell" || st.Owner == "hdrcell") && r.target == tRow
-			if unsupported != (err != nil) {
-				return ev.V("step %d: registering %s returned error %v; unsupported combination: %v", step, w.describe(r), err, unsupported)
-			}
-			if err == nil {
-				w.regs = append(w.regs, r)
-				byID[r.id] = r
+			for rep := 0; rep < reps; rep++ {
+				rr := *r
+				r := &rr
+				w.nextID++
+				r.id = w.nextID
+				var registrar tabular.Table = t
+				if st.Via2 && st.Owner != "table" {
+					// (a table named as owner through another table's method is ambiguous when it is a wrapper)
+					registrar = other
+				}
+				err := registrar.RegisterPropertyCallback(owner, whens[r.when], targets[r.target], &recorder{r: r, w: w})
+				unsupported := (st.Owner == "column" || st.Owner == "cell" || st.Owner == "hdrcell") && r.target == tRow
+				if unsupported != (err != nil) {
+					return ev.V("step %d: registering %s returned error %v; unsupported combination: %v", step, w.describe(r), err, unsupported)
+				}
+				if err == nil {
+					w.regs = append(w.regs, r)
+					byID[r.id] = r
+				}
 			}
 		}
 		what := st.K
